@@ -102,13 +102,14 @@ func (s *inst) Enabled() []op {
 
 func (s *inst) data() []int {
 	var out []int
-	for i := 0; ; i++ {
+	for i := 0; i < s.q.Len()+2; i++ { // bounded: a Peek that never says "no" must not hang the harness
 		v, ok := s.q.Peek(i)
 		if !ok {
 			return out
 		}
 		out = append(out, v)
 	}
+	return out
 }
 
 func (s *inst) Key() string {
@@ -359,7 +360,7 @@ func checkLong(c longCase) *mc.Failure {
 				return mc.Failf(step, "%s: Len=%d want %d", what, q.Len(), len(held))
 			}
 			n := 0
-			for i := 0; ; i++ {
+			for i := 0; i < q.Len()+2; i++ {
 				v, ok := q.Peek(i)
 				if !ok {
 					break
